@@ -26,9 +26,8 @@ CONSTANTS Reqs,             \* request ids
           MaySpawnFail,     \* requests whose process may fail to start
           DevNoDeallocOnSpawnFail,  \* spawn failure keeps the allocation
           DevAllocIgnoresBusy,      \* _alloc hands out busy indices
-          DevTimeoutRace,           \* _dispatch: result put and kill both fire
+          DevPutOutsideLock,        \* _dispatch child: result queued before res_lock is taken
           DevDupKillsWatcher,       \* a duplicated result ends the result thread
-          DevSysExitLost,           \* a payload leaving via SystemExit reports nothing
           DevTargetIgnoresMissing,  \* missing exit code counted as success
           DevNoSeen,                \* master forgets raptor_seen
           DevEnvLeak                \* dispatcher does not restore the environment
@@ -37,10 +36,12 @@ ASSUME \A r \in Reqs : ValidDemand(Demand[r]) /\ (Mode[r] = ExeMode \/ KindOK(Ki
 
 VARIABLES st, reg, backlog, seen, mq, wq, cur, polled,
           cores, gpus, slots, pool, resq, wdead, mres, env, sout,
-          runningOn, put, back, target, ec, visits
+          runningOn, put, back, target, ec, visits,
+          cpc, ppc, lk, rdone, act     \* the dispatch process pair of a request (see below)
 
+dvars == <<cpc, ppc, lk, rdone, act>>
 vars == <<st, reg, backlog, seen, mq, wq, cur, polled, cores, gpus, slots, pool, resq,
-          wdead, mres, env, sout, runningOn, put, back, target, ec, visits>>
+          wdead, mres, env, sout, runningOn, put, back, target, ec, visits, dvars>>
 
 IsExe(r)  == Mode[r] = ExeMode
 NatRet(r) == IF Succeeds(Kind[r]) THEN "0" ELSE IF Mode[r] \in ProcModes THEN "3" ELSE "1"
@@ -57,6 +58,8 @@ Init ==
   /\ put = [r \in Reqs |-> 0] /\ back = [r \in Reqs |-> 0]
   /\ target = [r \in Reqs |-> "none"] /\ ec = [r \in Reqs |-> "unset"]
   /\ visits = [r \in Reqs |-> 0]
+  /\ cpc = [r \in Reqs |-> "idle"] /\ ppc = [r \in Reqs |-> "idle"]
+  /\ lk = [r \in Reqs |-> "free"] /\ rdone = [r \in Reqs |-> FALSE] /\ act = "none"
 
 (* ------------------------------------------------------------------------ *)
 (* scheduler hand-off (_schedule_incoming, control_cb)                      *)
@@ -70,14 +73,14 @@ SchedIn(r) ==
      THEN /\ mq' = Append(mq, r) /\ st' = [st EXCEPT ![r] = "mq"] /\ UNCHANGED backlog
      ELSE /\ backlog' = Append(backlog, r) /\ st' = [st EXCEPT ![r] = "backlog"] /\ UNCHANGED mq
   /\ UNCHANGED <<reg, seen, wq, cur, polled, cores, gpus, slots, pool, resq, wdead, mres,
-                 env, sout, runningOn, put, back, target, ec, visits>>
+                 env, sout, runningOn, put, back, target, ec, visits, dvars>>
 
 Register ==
   /\ reg = "no" /\ reg' = "yes"
   /\ mq' = mq \o backlog /\ backlog' = <<>>
   /\ st' = [r \in Reqs |-> IF r \in SeqSet(backlog) THEN "mq" ELSE st[r]]
   /\ UNCHANGED <<seen, wq, cur, polled, cores, gpus, slots, pool, resq, wdead, mres,
-                 env, sout, runningOn, put, back, target, ec, visits>>
+                 env, sout, runningOn, put, back, target, ec, visits, dvars>>
 
 \* the master is gone: what was kept for it is failed
 Unregister ==
@@ -86,7 +89,7 @@ Unregister ==
   /\ backlog' = <<>>
   /\ st' = [r \in Reqs |-> IF r \in SeqSet(backlog) THEN "failed" ELSE st[r]]
   /\ UNCHANGED <<seen, mq, wq, cur, polled, cores, gpus, slots, pool, resq, wdead, mres,
-                 env, sout, runningOn, put, back, target, ec, visits>>
+                 env, sout, runningOn, put, back, target, ec, visits, dvars>>
 
 (* ------------------------------------------------------------------------ *)
 (* master                                                                   *)
@@ -103,7 +106,7 @@ Dispatch(r) ==
           /\ st' = [st EXCEPT ![r] = "wq"]
           /\ UNCHANGED seen
   /\ UNCHANGED <<reg, backlog, cur, polled, cores, gpus, slots, pool, resq, wdead, mres,
-                 env, sout, runningOn, put, back, target, ec>>
+                 env, sout, runningOn, put, back, target, ec, dvars>>
 
 Back(r, e) ==
   /\ back' = [back EXCEPT ![r] = @ + 1]
@@ -117,7 +120,7 @@ LocalDone(r, e) ==
   /\ st[r] = "local" /\ e \in {"0", "1"}
   /\ Back(r, e)
   /\ UNCHANGED <<reg, backlog, seen, mq, wq, cur, polled, cores, gpus, slots, pool, resq,
-                 wdead, mres, env, sout, runningOn, put, visits>>
+                 wdead, mres, env, sout, runningOn, put, visits, dvars>>
 
 \* a result taken from the result queue
 Result(r) ==
@@ -125,7 +128,7 @@ Result(r) ==
                       /\ mres' = mres \ {x}
                       /\ Back(r, x.ec)
   /\ UNCHANGED <<reg, backlog, seen, mq, wq, cur, polled, cores, gpus, slots, pool, resq,
-                 wdead, env, sout, runningOn, put, visits>>
+                 wdead, env, sout, runningOn, put, visits, dvars>>
 
 (* ------------------------------------------------------------------------ *)
 (* worker                                                                   *)
@@ -135,7 +138,7 @@ Take(r) ==
   /\ wq' = Tail(wq) /\ cur' = r /\ polled' = FALSE
   /\ st' = [st EXCEPT ![r] = "held"]
   /\ UNCHANGED <<reg, backlog, seen, mq, cores, gpus, slots, pool, resq, wdead, mres,
-                 env, sout, runningOn, put, back, target, ec, visits>>
+                 env, sout, runningOn, put, back, target, ec, visits, dvars>>
 
 CodeFits(r) == DevAllocIgnoresBusy \/ FitsOcc(cores, gpus, Demand[r])
 CodeAlloc(r) == IF DevAllocIgnoresBusy
@@ -147,7 +150,7 @@ Wait ==
   /\ cur # "none" /\ ~CodeFits(cur) /\ ~polled
   /\ polled' = TRUE
   /\ UNCHANGED <<st, reg, backlog, seen, mq, wq, cur, cores, gpus, slots, pool, resq, wdead,
-                 mres, env, sout, runningOn, put, back, target, ec, visits>>
+                 mres, env, sout, runningOn, put, back, target, ec, visits, dvars>>
 
 Start(r) ==
   /\ cur = r /\ CodeFits(r)
@@ -158,7 +161,7 @@ Start(r) ==
   /\ pool' = pool \cup {r} /\ cur' = "none"
   /\ st' = [st EXCEPT ![r] = "run"]
   /\ UNCHANGED <<reg, backlog, seen, mq, wq, polled, resq, wdead, mres, env, sout,
-                 put, back, target, ec, visits>>
+                 put, back, target, ec, visits, dvars>>
 
 \* allocation succeeded, the process could not be started: release, report
 SpawnFails(r) ==
@@ -173,27 +176,98 @@ SpawnFails(r) ==
   /\ put' = [put EXCEPT ![r] = @ + 1]
   /\ st' = [st EXCEPT ![r] = "mres"]
   /\ UNCHANGED <<reg, backlog, seen, mq, wq, polled, pool, resq, wdead, env, sout,
-                 runningOn, back, target, ec, visits>>
+                 runningOn, back, target, ec, visits, dvars>>
 
-Outcomes(r) ==
-     (IF Kind[r] = "sysexit" /\ DevSysExitLost THEN {"die"} ELSE {"nat"})
-  \cup (IF r \in MayTimeout THEN {"timeout"} ELSE {})
-  \cup (IF r \in MayTimeout /\ DevTimeoutRace /\ ~(Kind[r] = "sysexit" /\ DevSysExitLost)
-        THEN {"late"} ELSE {})
+(* ---- the dispatch process of a request ---------------------------------- *)
+(* DefaultWorker._dispatch (parent) and its nested _worker_proc (child).     *)
+(* A request without timeout: the parent can only wait for the child, the    *)
+(* pair is one step (Finish).  A request with a timeout: parent and child    *)
+(* race, and every operation on what they share is a step of its own:        *)
+(*   child : payload | take res_lock | put result | set res_done + release   *)
+(*   parent: join(timeout) returns | take res_lock | res_done.is_set() |     *)
+(*           terminate child | put timeout result + release                  *)
+(* Dispatch processes of different requests share nothing but the result     *)
+(* queue (a bag), so only one pair is stepped at a time (act).               *)
+Micro(r) == r \in MayTimeout
+NatRes(r) == [r |-> r, ret |-> NatRet(r), n |-> 1]
+TmoRes(r) == [r |-> r, ret |-> "1", n |-> 2]
+EnvAfter(r) == IF DevEnvLeak THEN During(env, Kind[r], Mode[r]) ELSE env
+Queued(r) == [st EXCEPT ![r] = IF @ = "run" THEN "resq" ELSE @]
 
-\* the dispatch process ends: what it leaves on the worker's internal result queue
-Finish(r, o) ==
-  /\ st[r] = "run" /\ o \in Outcomes(r)
-  /\ LET nat == [r |-> r, ret |-> NatRet(r), n |-> 1]
-         tmo == [r |-> r, ret |-> "1", n |-> 2]
-     IN resq' = resq \cup (IF o = "nat" THEN {nat} ELSE IF o = "timeout" THEN {tmo}
-                           ELSE IF o = "late" THEN {nat, tmo} ELSE {})
-  /\ st' = [st EXCEPT ![r] = IF o = "die" THEN "lost" ELSE "resq"]
-  \* the call ran (dispatcher contract): what it touched is restored
-  /\ env'  = IF o \in {"nat", "late"} /\ DevEnvLeak THEN During(env, Kind[r], Mode[r]) ELSE env
-  /\ sout' = sout
+Finish(r) ==
+  /\ st[r] = "run" /\ ~Micro(r)
+  /\ resq' = resq \cup {NatRes(r)}
+  /\ st' = Queued(r)
+  /\ env' = EnvAfter(r) /\ sout' = sout
   /\ UNCHANGED <<reg, backlog, seen, mq, wq, cur, polled, cores, gpus, slots, pool, wdead,
-                 mres, runningOn, put, back, target, ec, visits>>
+                 mres, runningOn, put, back, target, ec, visits, dvars>>
+
+DUnch == UNCHANGED <<reg, backlog, seen, mq, wq, cur, polled, cores, gpus, slots, pool, wdead,
+                     mres, sout, runningOn, put, back, target, ec, visits>>
+
+PStart(r) ==
+  /\ st[r] = "run" /\ Micro(r) /\ ppc[r] = "idle" /\ act = "none"
+  /\ act' = r /\ ppc' = [ppc EXCEPT ![r] = "join"] /\ cpc' = [cpc EXCEPT ![r] = "ready"]
+  /\ DUnch /\ UNCHANGED <<st, resq, env, lk, rdone>>
+
+\* the payload runs; the child arrives at its first shared operation
+CRun(r) ==
+  /\ cpc[r] = "ready"
+  /\ cpc' = [cpc EXCEPT ![r] = IF DevPutOutsideLock THEN "put" ELSE "wlock"]
+  /\ env' = EnvAfter(r)
+  /\ DUnch /\ UNCHANGED <<st, resq, ppc, lk, rdone, act>>
+
+CLock(r) ==
+  /\ cpc[r] = "wlock" /\ lk[r] = "free"
+  /\ lk' = [lk EXCEPT ![r] = "c"]
+  /\ cpc' = [cpc EXCEPT ![r] = IF DevPutOutsideLock THEN "set" ELSE "put"]
+  /\ DUnch /\ UNCHANGED <<st, resq, env, ppc, rdone, act>>
+
+CPut(r) ==
+  /\ cpc[r] = "put"
+  /\ resq' = resq \cup {NatRes(r)} /\ st' = Queued(r)
+  /\ cpc' = [cpc EXCEPT ![r] = IF DevPutOutsideLock THEN "wlock" ELSE "set"]
+  /\ DUnch /\ UNCHANGED <<env, ppc, lk, rdone, act>>
+
+CSet(r) ==
+  /\ cpc[r] = "set"
+  /\ rdone' = [rdone EXCEPT ![r] = TRUE] /\ lk' = [lk EXCEPT ![r] = "free"]
+  /\ cpc' = [cpc EXCEPT ![r] = "done"]
+  /\ DUnch /\ UNCHANGED <<st, resq, env, ppc, act>>
+
+\* join(timeout) returns: the child ended or the timeout expired
+PJoin(r) ==
+  /\ ppc[r] = "join"
+  /\ ppc' = [ppc EXCEPT ![r] = "wlock"]
+  /\ DUnch /\ UNCHANGED <<st, resq, env, cpc, lk, rdone, act>>
+
+PLock(r) ==
+  /\ ppc[r] = "wlock" /\ lk[r] = "free"
+  /\ lk' = [lk EXCEPT ![r] = "p"] /\ ppc' = [ppc EXCEPT ![r] = "check"]
+  /\ DUnch /\ UNCHANGED <<st, resq, env, cpc, rdone, act>>
+
+PCheck(r) ==
+  /\ ppc[r] = "check"
+  /\ IF rdone[r]
+     THEN /\ lk' = [lk EXCEPT ![r] = "free"] /\ ppc' = [ppc EXCEPT ![r] = "exit"]
+          /\ act' = "none"
+     ELSE /\ ppc' = [ppc EXCEPT ![r] = "kill"] /\ UNCHANGED <<lk, act>>
+  /\ DUnch /\ UNCHANGED <<st, resq, env, cpc, rdone>>
+
+PKill(r) ==
+  /\ ppc[r] = "kill"
+  /\ cpc' = [cpc EXCEPT ![r] = IF @ = "done" THEN @ ELSE "killed"]
+  /\ ppc' = [ppc EXCEPT ![r] = "put2"]
+  /\ DUnch /\ UNCHANGED <<st, resq, env, lk, rdone, act>>
+
+PPut2(r) ==
+  /\ ppc[r] = "put2"
+  /\ resq' = resq \cup {TmoRes(r)} /\ st' = Queued(r)
+  /\ lk' = [lk EXCEPT ![r] = "free"] /\ ppc' = [ppc EXCEPT ![r] = "exit"] /\ act' = "none"
+  /\ DUnch /\ UNCHANGED <<env, cpc, rdone>>
+
+DispatchStep(r) == PStart(r) \/ CRun(r) \/ CLock(r) \/ CPut(r) \/ CSet(r)
+                   \/ PJoin(r) \/ PLock(r) \/ PCheck(r) \/ PKill(r) \/ PPut2(r)
 
 \* result watcher -> _result_cb
 Deliver(r, n) ==
@@ -213,7 +287,7 @@ Deliver(r, n) ==
         ELSE /\ wdead' = DevDupKillsWatcher
              /\ UNCHANGED <<pool, cores, gpus, runningOn, mres, put, st>>
   /\ UNCHANGED <<reg, backlog, seen, mq, wq, cur, polled, slots, env, sout,
-                 back, target, ec, visits>>
+                 back, target, ec, visits, dvars>>
 
 Done == \A r \in Reqs : st[r] \in {"out", "failed"}
 Terminated == Done /\ UNCHANGED vars
@@ -221,7 +295,7 @@ Terminated == Done /\ UNCHANGED vars
 Sched  == (\E r \in Reqs : SchedIn(r)) \/ Register \/ Unregister
 Master == \E r \in Reqs : Dispatch(r) \/ (\E e \in {"0", "1"} : LocalDone(r, e))
 Worker == \/ \E r \in Reqs : Take(r) \/ Start(r) \/ SpawnFails(r)
-                              \/ (\E o \in {"nat", "timeout", "late", "die"} : Finish(r, o))
+                              \/ Finish(r) \/ DispatchStep(r)
           \/ Wait
           \/ \E r \in Reqs, n \in {1, 2} : Deliver(r, n)
 MRes   == \E r \in Reqs : Result(r)
@@ -239,6 +313,10 @@ TypeOK ==
   /\ cur \in Reqs \cup {"none"} /\ pool \subseteq Reqs
   /\ \A i \in Core : cores[i] \in {0, 1}
   /\ \A i \in Gpu  : gpus[i]  \in {0, 1}
+  /\ act \in Reqs \cup {"none"}
+  /\ \A r \in Reqs : /\ cpc[r] \in {"idle", "ready", "wlock", "put", "set", "done", "killed"}
+                      /\ ppc[r] \in {"idle", "join", "wlock", "check", "kill", "put2", "exit"}
+                      /\ lk[r] \in {"free", "c", "p"}
 
 Running == {r \in Reqs : runningOn[r] # NoSlots}
 
